@@ -214,6 +214,33 @@ def run_model(cfg, profile, lines, jobs=None):
             res.extend(o)
     return res
 
+def run_miri(cfg, lines, timeout=3000):
+    """run cases through the harness under Miri (default Stacked Borrows aliasing model, debug profile).
+    returns (outputs, ub) where ub is None or dict(index, case, message).  Supporting check only."""
+    feats = "" if cfg == "none" else cfg.replace("+", ",")
+    cmd = ["cargo", "+nightly", "miri", "run", "--offline", "--quiet", "--target-dir", os.path.join("target", "miri-" + cfg)]
+    if feats:
+        cmd += ["--features", feats]
+    if REPO != "/repo":
+        cmd += ["--config", 'paths=["%s"]' % REPO]
+    cmd += ["--", "run", "--flush"]
+    env = dict(ENV, HX_REPO=REPO, MIRIFLAGS="-Zmiri-disable-isolation")
+    try:
+        p = subprocess.run(cmd, cwd=HARNESS, input=("\n".join(lines) + "\n").encode("latin-1"), stdout=subprocess.PIPE,
+                           stderr=subprocess.PIPE, env=env, timeout=timeout)
+    except subprocess.TimeoutExpired:
+        return [], dict(index=-1, case="", message="miri timeout")
+    out = p.stdout.decode("latin-1").split("\n")
+    if out and out[-1] == "":
+        out.pop()
+    if p.returncode != 0:
+        err = p.stderr.decode("latin-1", "replace")
+        m = re.search(r"error: (Undefined Behavior[^\n]*|[^\n]*)", err)
+        k = len(out)
+        return out, dict(index=k, case=lines[k] if k < len(lines) else "", message=(m.group(1) if m else err[-300:]),
+                         is_ub="Undefined Behavior" in err)
+    return out, None
+
 def split_ms(mline):
     """driver line -> (model part, spec part or None)"""
     if " | S " in mline:
